@@ -28,6 +28,12 @@ CHECKS = {
         note="Trusted base: matcher E, tokenizer T, html.unescape, the documented merge rules as coded in the harness model.",
         ref="2/C03",
     ),
+    "C04": dict(
+        technique="property-based algebraic law + metamorphic relation: Hypothesis expression trees over str/HTML/number with +, reflected + and += against an algebraic model (rendering of the result == rendering of the operands as adjacent children, each plain operand escaped exactly once); trusted-slot trees with exact placeholder substitution on every rendering path",
+        text="Seeded generated-input search; algebraic oracle for concatenation, exact-substitution metamorphic oracle for HTML() children/attributes, _repr_html_ output and script/style text over get_html_string, str, render, tagify and HTMLDocument. Exploration.",
+        note="Trusted base: matcher E, Python operator semantics; _repr_html_ returns str as the protocol declares.",
+        ref="2/C04",
+    ),
     "C05": dict(
         technique="property-based invariants over arbitrarily nested id-tagged trees: positional containment of the flat concatenation of every block-free sibling run, whitespace-token adjacency rule via the tokenizer; exhaustive sibling-kind triples",
         text="Seeded generated-input search over arbitrary (also invalid) nestings with two independent invariants, plus complete enumeration of parent x sibling-kind triples. Exploration; exhaustive on the triples sub-domain.",
